@@ -10,10 +10,14 @@ CacheFor(i) == IF cache.i = i THEN cache ELSE [i |-> i, map |-> Place(MapRows(T7
 \* ---- C08: whole symbol written by DataMatrixWriter at size 0x0 for the data codewords EncodeHighLevel returned
 SymCheck(e, ch) ==
   LET i == SizeIdx(e.h, e.w) IN
-  IF e.panic = 1 \/ e.hang = 1 \/ e.err = 1 \/ e.cwerr = 1 \/ i = 0 THEN <<0, 0, 0>>
+  IF e.panic = 0 /\ e.hang = 0 /\ e.tag = "choice" /\ e.err = 1 /\ e.cwerr = 1
+  THEN <<B(Lookup(AsciiLen(e.text, 1), e.shape, e.mn, e.mx) = 0), 1, 1>>      \* a digit string is refused only if no admissible symbol holds it
+  ELSE IF e.panic = 1 \/ e.hang = 1 \/ e.err = 1 \/ e.cwerr = 1 \/ i = 0 THEN <<0, 0, 0>>
   ELSE LET t == T7[i]
            okLen == Len(e.cw) = NData(t) /\ ChShapeOK(e.rows, e.w, e.h) /\ \A k \in 1..Len(e.cw) : e.cw[k] \in 0..255
-       IN IF ~okLen THEN <<1, 0, 0>>
+           \* C13: the written symbol is the first admissible one (capacity order) for the codewords under the hints of the call
+           okChoice == i = Lookup(Len(e.cw), e.shape, e.mn, e.mx)
+       IN IF ~okLen \/ ~okChoice THEN <<1, 0, 0>>
           ELSE LET cw == Codewords(t, e.cw)
                    rows == ChUnRows(e.rows, e.w, e.h)
                    \* tag "pad": a one-character text in a forced size: codeword, first pad 129, then 253-state randomised pads
